@@ -86,6 +86,9 @@ class FsModel:
                 fault_point(I, st, "write_text", site)
                 st.effects.append(("write", recv.t, args[0], site))
                 return None
+            if name in ("unlink", "rmdir", "touch", "rename", "replace", "write_bytes"):
+                st.effects.append((name, recv.t, site))
+                return None
             if name == "with_name":
                 r = P_WITHNAME(recv.t, sterm(args[0]))
                 d = z3.Const("d!under", StrSort)
